@@ -107,7 +107,10 @@ def run_variant(prop, v, root):
         if err:
             return v, "skipped", err, ""
         cmd = [sys.executable, "-B", str(HERE / "cli.py"), prop, "--root", str(scratch), "--no-evidence", "--tier", "quick"]
-        r = subprocess.run(cmd, capture_output=True, text=True, timeout=600)
+        try:
+            r = subprocess.run(cmd, capture_output=True, text=True, timeout=900)
+        except subprocess.TimeoutExpired:
+            return v, "skipped", "check did not finish within 900 s on this variant (machine overloaded?)", ""
         out = r.stdout + r.stderr
         if v["kind"] == "break":
             if r.returncode != 1:
@@ -116,6 +119,11 @@ def run_variant(prop, v, root):
             if rule and f"{prop}.{rule} refuted" not in out:
                 return v, "FAIL", f"violation reported but not by rule {rule}", out
             return v, "ok", "detected", out
+        elif v["kind"] == "break-or-noverdict":
+            # a breaking change in a function rewritten beyond the trust region of the shape rules: exit 1 or 2, never 0
+            if r.returncode == 0:
+                return v, "FAIL", "breaking variant passed silently (exit 0)", out
+            return v, "ok", "detected" if r.returncode == 1 else "no verdict", out
         elif v["kind"] == "benign-or-noverdict":
             if r.returncode == 1 or "VIOLATION" in out:
                 return v, "FAIL", "deep rewrite: a VIOLATION was printed on behaviour-preserving code", out
